@@ -1,4 +1,5 @@
 # Reference forms for decoder construction and pre-selection helpers (never imported, only parsed).
+BLANK_SYMBOL = '<BLANK>'
 # reference for pero_ocr.decoding.decoders:CTCPrefixLogRawNumpyDecoder.__init__
 def dec_init(self, letters, k,
              lm=None, lm_scale=1.0, insertion_bonus=0.0,
